@@ -120,7 +120,8 @@ EVOL = "iOpt/evolvent/evolvent.py"
 
 MUTANTS = {
     "recalc_dropped_in_CalculateM": M(METHOD, "                self.M[index] = m\n                self.recalc = True", "                self.M[index] = m", ["C02"]),
-    "recalc_dropped_in_UpdateOptimum": M(METHOD, "            self.best = point\n            self.recalc = True\n            self.Z[point.GetIndex()] = point.GetZ()\n        self.searchData", "            self.best = point\n            self.Z[point.GetIndex()] = point.GetZ()\n        self.searchData", ["C02"]),
+    "recalc_dropped_in_UpdateOptimum": M(METHOD, "            self.best = point\n            self.recalc = True\n            self.Z[point.GetIndex()] = point.GetZ()\n        # a locally", "            self.best = point\n            self.Z[point.GetIndex()] = point.GetZ()\n        # a locally", ["C02"]),
+    "refined_optimum_replaced_by_worse_global_trial": M(METHOD, "        if reported is self.best or not reported.functionValues or \\\n                self.best.functionValues[0].value <= reported.functionValues[0].value:\n            self.searchData.solution.bestTrials[0] = self.best", "        self.searchData.solution.bestTrials[0] = self.best", ["C04"], note="revert of fix 9"),
     "right_neighbour_not_requeued": M(SDATA, "        self._RGlobalQueue.Insert(newDataItem.globalR, newDataItem)\n        if flag:\n            self._RGlobalQueue.Insert(rightDataItem.globalR, rightDataItem)\n\n    def InsertFirstDataItem", "        self._RGlobalQueue.Insert(newDataItem.globalR, newDataItem)\n\n    def InsertFirstDataItem", ["C02", "C19"]),
     "point_rule_sign_flip": M(METHOD, "            x -= 0.5 * dg * pow(", "            x += 0.5 * dg * pow(", ["C02"]),
     "point_rule_missing_r": M(METHOD, "self.task.problem.numberOfFloatVariables) / self.parameters.r", "self.task.problem.numberOfFloatVariables)", ["C02"]),
@@ -216,8 +217,9 @@ def cmd_sensitivity(args):
         for k, v in r.get("details", {}).items():
             if v["rc"] not in (0, 1):
                 print("   ", k, v["tail"].replace("\n", " | "))
-    with open(os.path.join(core.VERIF_DIR, "evidence", "selftest-sensitivity.json"), "w") as f:
-        json.dump(out, f, indent=1)
+    if not args:     # a partial run must not replace the full table
+        with open(os.path.join(core.VERIF_DIR, "evidence", "selftest-sensitivity.json"), "w") as f:
+            json.dump(out, f, indent=1)
     print("sensitivity: %d mutants, %d not detected by any expected check" % (len(out), missed))
     return 0
 
